@@ -360,6 +360,8 @@ type c29Reply struct {
 	Hang      string   `json:"hang,omitempty"`
 	HangWhere string   `json:"hang_where,omitempty"`
 	EngineErr string   `json:"engine_err,omitempty"`
+	Neutral   []bool   `json:"neutral"` // per step: the canonical server state after the step equals the state before it
+	Busy      string   `json:"busy,omitempty"` // the server was still working on a step when the watchdog expired
 	Exit      bool     `json:"exit,omitempty"` // the worker abandons its server after this reply (unusable)
 }
 
@@ -384,6 +386,7 @@ type c29World struct {
 	canary   *opcua.Client
 	variants []c29Variant
 	jobs     int
+	conns    [2]*c29Conn // kept between histories while their channel and session are intact
 }
 
 func newC29World() (*c29World, error) {
@@ -452,26 +455,51 @@ func (w *c29World) openConn() (*c29Conn, error) {
 	if err = rc.activateSession(c.tok); err != nil {
 		return nil, fmt.Errorf("activate session: %v", err)
 	}
+	return c, w.equip(c)
+}
+
+// equip gives the connection's session its initial subscription and monitored item.
+func (w *c29World) equip(c *c29Conn) error {
+	rc := &rawChan{conn: c.conn, sc: c.sc}
 	resp, err := rc.send(c32Request(c32Op{K: "CS"}, 0, 0), c.tok)
 	if err != nil {
-		return nil, fmt.Errorf("initial subscription: %v", err)
+		return fmt.Errorf("initial subscription: %v", err)
 	}
 	c.sub = resp.(*ua.CreateSubscriptionResponse).SubscriptionID
 	resp, err = rc.send(&ua.CreateMonitoredItemsRequest{SubscriptionID: c.sub, TimestampsToReturn: ua.TimestampsToReturnBoth, ItemsToCreate: []*ua.MonitoredItemCreateRequest{c29MonItem(w.target)}}, c.tok)
 	if err != nil {
-		return nil, fmt.Errorf("initial item: %v", err)
+		return fmt.Errorf("initial item: %v", err)
 	}
 	c.item = resp.(*ua.CreateMonitoredItemsResponse).Results[0].MonitoredItemID
-	return c, nil
+	return nil
+}
+
+// reusable: the connection's channel is still registered and its session still exists.
+func (w *c29World) reusable(c *c29Conn) bool {
+	if c == nil || c.dropped || !w.hasChannel(c.local) {
+		return false
+	}
+	for _, t := range w.srv.VerifSessionTokens() {
+		if t == c.tok.String() {
+			return true
+		}
+	}
+	return false
 }
 
 // cleanup removes what a history left behind (same reset as C32).
 func (w *c29World) cleanup(conns []*c29Conn) error {
-	for _, c := range conns {
-		if c != nil {
-			c.sc.Close()
-			c.conn.Close()
+	for i, c := range conns {
+		if c == nil {
+			continue
 		}
+		if w.reusable(c) {
+			w.conns[i] = c
+			continue
+		}
+		w.conns[i] = nil
+		c.sc.Close()
+		c.conn.Close()
 	}
 	ss := w.srv.SubscriptionService
 	ss.Mu.Lock()
@@ -510,6 +538,14 @@ func (w *c29World) canaryRead() error {
 	if len(resp.Results) != 1 {
 		return fmt.Errorf("canary read answered %d results", len(resp.Results))
 	}
+	// two requests that take the subscription and the monitored item service locks without changing anything:
+	// a server whose services are wedged behind a lock does not serve other clients either
+	for _, req := range []ua.Request{&ua.DeleteSubscriptionsRequest{SubscriptionIDs: []uint32{}}, &ua.SetMonitoringModeRequest{MonitoredItemIDs: []uint32{}}} {
+		err := w.canary.Send(ctx, req, func(ua.Response) error { return nil })
+		if _, isStatus := err.(ua.StatusCode); err != nil && !(isStatus && err != ua.StatusBadTimeout) {
+			return fmt.Errorf("canary %T: %v", req, err)
+		}
+	}
 	return nil
 }
 
@@ -532,6 +568,77 @@ func dispatcherWhere() string {
 	return "?"
 }
 
+// state is the canonical server state used for the reduction "a step that leaves
+// the state unchanged cannot enable anything": subscriptions (id, owner,
+// parameters, queued publish requests), monitored items (rank, subscription,
+// mode), session tokens, number of channels, attributes and value of the two
+// nodes the alphabet can write to.
+func (w *c29World) state() string {
+	var b strings.Builder
+	ss := w.srv.SubscriptionService
+	ss.Mu.Lock()
+	var subs []string
+	for id, sub := range ss.Subs {
+		subs = append(subs, fmt.Sprintf("sub%d@%s/%v/%d/%d/q%d", id, sub.VerifSubOwner(), sub.RevisedPublishingInterval, sub.RevisedLifetimeCount, sub.RevisedMaxKeepAliveCount, sub.VerifPendingPublish()))
+	}
+	ss.Mu.Unlock()
+	sort.Strings(subs)
+	ms := w.srv.MonitoredItemService
+	ms.Mu.Lock()
+	ids := make([]uint32, 0, len(ms.Items))
+	for id := range ms.Items {
+		ids = append(ids, id)
+	}
+	sort.Slice(ids, func(i, j int) bool { return ids[i] < ids[j] })
+	var items []string
+	for rank, id := range ids {
+		it := ms.Items[id]
+		sid := uint32(0)
+		if it.Sub != nil {
+			sid = it.Sub.ID
+		}
+		node := ""
+		if it.Req != nil && it.Req.ItemToMonitor != nil {
+			node = it.Req.ItemToMonitor.NodeID.String()
+		}
+		items = append(items, fmt.Sprintf("#%d:sub%d/m%d/%s", rank, sid, it.Mode, node))
+	}
+	nn, nsb := len(ms.Nodes), len(ms.Subs)
+	ms.Mu.Unlock()
+	fmt.Fprintf(&b, "subs=%v items=%v bynode=%d bysub=%d sessions=%v channels=%d", subs, items, nn, nsb, w.srv.VerifSessionTokens(), w.srv.VerifChannelCount())
+	for _, nid := range []*ua.NodeID{w.target, w.folder} {
+		n := w.ns.Node(nid)
+		if n == nil {
+			b.WriteString(" node=nil")
+			continue
+		}
+		at := n.VerifAttrs()
+		keys := make([]int, 0, len(at))
+		for k := range at {
+			keys = append(keys, int(k))
+		}
+		sort.Ints(keys)
+		for _, k := range keys {
+			fmt.Fprintf(&b, " a%d=%s", k, dvString(at[ua.AttributeID(k)]))
+		}
+		func() {
+			defer func() { recover() }()
+			fmt.Fprintf(&b, " v=%s", dvString(n.Value()))
+		}()
+	}
+	return b.String()
+}
+
+func dvString(dv *ua.DataValue) string {
+	if dv == nil {
+		return "nil"
+	}
+	if dv.Value == nil {
+		return "novariant"
+	}
+	return fmt.Sprintf("%T:%v", dv.Value.Value(), dv.Value.Value())
+}
+
 // subsSettled: every subscription has started its ticker; subscriptions created
 // with the 1 ms / lifetime 0 parameters have expired.
 func (w *c29World) subsSettled() bool {
@@ -552,7 +659,14 @@ func (w *c29World) subsSettled() bool {
 func (w *c29World) run(j c29Job) (rep c29Reply) {
 	conns := make([]*c29Conn, 2)
 	for i := range conns {
-		c, err := w.openConn()
+		var err error
+		c := w.conns[i]
+		w.conns[i] = nil
+		if c != nil {
+			err = w.equip(c) // the previous history's cleanup removed every subscription and item
+		} else {
+			c, err = w.openConn()
+		}
 		if err != nil {
 			rep.EngineErr = fmt.Sprintf("opening connection %d: %v", i, err)
 			rep.Exit = true
@@ -561,20 +675,30 @@ func (w *c29World) run(j c29Job) (rep c29Reply) {
 		conns[i] = c
 	}
 	defer func() {
-		if rep.Hang != "" || rep.EngineErr != "" {
+		if rep.Hang != "" || rep.EngineErr != "" || rep.Busy != "" {
 			rep.Exit = true
 			return
 		}
-		if err := w.cleanup(conns); err != nil {
-			rep.EngineErr = err.Error()
+		done := make(chan error, 1)
+		go func() { done <- w.cleanup(conns) }()
+		select {
+		case err := <-done:
+			if err != nil {
+				rep.Busy = "cleanup: " + err.Error()
+				rep.Exit = true
+			}
+		case <-time.After(2 * watchdog):
+			rep.Busy = "cleanup did not finish"
 			rep.Exit = true
 		}
 	}()
+	before := w.state()
 	for si, st := range j.Steps {
 		hostProgress(fmt.Sprint(si))
 		c, o := conns[st.Conn], conns[1-st.Conn]
 		if c.dropped {
 			rep.Steps = append(rep.Steps, "conn-dead")
+			rep.Neutral = append(rep.Neutral, true)
 			continue
 		}
 		v := w.variants[st.V]
@@ -589,11 +713,20 @@ func (w *c29World) run(j c29Job) (rep c29Reply) {
 		case "foreign":
 			tok = o.tok
 		}
-		sctx, cancel := context.WithTimeout(context.Background(), watchdog)
-		err := c.sc.SendRequestWithTimeout(sctx, req, tok, watchdog, nil) // do not wait for the answer: the sentinel is the barrier
-		cancel()
+		err := func() (err error) {
+			// the gopcua encoder panics on some nil members: that is the client's problem, not the server's
+			defer func() {
+				if p := recover(); p != nil {
+					err = fmt.Errorf("client-side encoder panic in %s", panicSite())
+				}
+			}()
+			sctx, cancel := context.WithTimeout(context.Background(), watchdog)
+			defer cancel()
+			return c.sc.SendRequestWithTimeout(sctx, req, tok, watchdog, nil) // do not wait for the answer: the sentinel is the barrier
+		}()
 		if err != nil {
 			rep.Steps = append(rep.Steps, "not-sent:"+c30Norm(err.Error()))
+			rep.Neutral = append(rep.Neutral, true)
 			continue
 		}
 		// sentinel on the same connection
@@ -601,7 +734,7 @@ func (w *c29World) run(j c29Job) (rep c29Reply) {
 		go func() {
 			sctx, cancel := context.WithTimeout(context.Background(), watchdog+5*time.Second)
 			defer cancel()
-			done <- c.sc.SendRequestWithTimeout(sctx, &ua.ReadRequest{NodesToRead: []*ua.ReadValueID{{NodeID: ua.NewNumericNodeID(0, id.Server_ServerStatus_State), AttributeID: ua.AttributeIDValue}}}, c.tok, watchdog, func(ua.Response) error { return nil })
+			done <- c.sc.SendRequestWithTimeout(sctx, &ua.ReadRequest{TimestampsToReturn: ua.TimestampsToReturnBoth, NodesToRead: []*ua.ReadValueID{c29RVID(ua.NewNumericNodeID(0, id.Server_ServerStatus_State), ua.AttributeIDValue)}}, c.tok, watchdog, func(ua.Response) error { return nil })
 		}()
 		outcome := ""
 		deadline := time.Now().Add(watchdog + 10*time.Second)
@@ -638,7 +771,18 @@ func (w *c29World) run(j c29Job) (rep c29Reply) {
 		for !w.subsSettled() && time.Now().Before(dl) {
 			time.Sleep(200 * time.Microsecond)
 		}
-		waitQuiescent()
+		if ok, why := waitQuiescent(); !ok || !w.subsSettled() {
+			// still working on the step after the watchdog: not a verdict (the canary decides about hangs), but
+			// this server cannot be reused deterministically
+			rep.Steps[len(rep.Steps)-1] += "+not-quiescent"
+			rep.Busy = "server still busy " + watchdog.String() + " after the step: " + why
+			// The canary's verdict would now depend on how fast the backlog drains (machine load), so it
+			// is not taken: a hang is only called when the server is quiescent and still does not answer.
+			return
+		}
+		after := w.state()
+		rep.Neutral = append(rep.Neutral, after == before)
+		before = after
 		// other clients must still be served
 		if err := w.canaryRead(); err != nil {
 			rep.Hang = fmt.Sprintf("canary read after step %d not answered: %v", si, err)
@@ -711,7 +855,7 @@ func c29() {
 		return
 	}
 	thorough := evid.Thorough()
-	budget := 60 * time.Second
+	budget := 70 * time.Second
 	if thorough {
 		budget = 10 * time.Minute
 	}
@@ -742,7 +886,9 @@ func c29() {
 	p := newPool("c29", evid.Workers(), nil)
 	defer p.close()
 
+	busy := map[string]string{}
 	bad := map[c29Op]bool{} // operations that kill or hang the server on their own
+	levelOne := false
 	jobID := 0
 	var histories, deaths, hangs int64
 	outcomes := map[string]int{}
@@ -753,7 +899,11 @@ func c29() {
 			jobID++
 			jobs[i], _ = json.Marshal(c29Job{ID: jobID, Steps: h})
 		}
-		results := p.run("C29", jobs, 4*time.Minute, timeUp)
+		stop := timeUp
+		if levelOne {
+			stop = nil // the single-step histories are always run completely: the pruning of longer ones depends on them
+		}
+		results := p.run("C29", jobs, 4*time.Minute, stop)
 		for i, jr := range results {
 			h := hist[i]
 			if jr.Out == nil && jr.Death == nil {
@@ -817,6 +967,12 @@ func c29() {
 				r.Violate(c29Sig("hang", h, step, variants, rep.HangWhere), fmt.Sprintf("history [%s]: %s; the dispatcher goroutine is in %s", desc, rep.Hang, rep.HangWhere), replay)
 				continue
 			}
+			if rep.Busy != "" {
+				r.Outcome("survived, server busy beyond the watchdog (abandoned)")
+				r.NotJudged(1)
+				busy[desc] = rep.Busy
+				continue
+			}
 			r.Outcome("survived")
 			if histories%997 == 1 {
 				r.Sample(map[string]any{"history": desc, "steps": rep.Steps})
@@ -830,9 +986,11 @@ func c29() {
 	for _, o := range ops {
 		l1 = append(l1, []c29Step{{V: o.V, Tok: o.Tok, Conn: 0}})
 	}
+	levelOne = true
 	if sk := runLevel(1, l1); sk > 0 {
 		r.Capped(fmt.Sprintf("time budget reached in level 1: %d of %d single-step histories not run", sk, len(l1)))
 	}
+	levelOne = false
 	var good []c29Op
 	for _, o := range ops {
 		if !bad[o] {
@@ -850,6 +1008,9 @@ func c29() {
 	prev := [][]c29Step{}
 	for _, o := range good {
 		prev = append(prev, []c29Step{{V: o.V, Tok: o.Tok, Conn: 0}})
+	}
+	if timeUp() && maxLen >= 2 {
+		r.Capped("time budget reached after level 1: no history of length 2 was run; all histories of length 1 were run")
 	}
 	for l := 2; l <= maxLen && !timeUp(); l++ {
 		// simplest first: order by the sum of the positions in the (already sorted) operation list
@@ -903,6 +1064,17 @@ func c29() {
 	r.Set("server_deaths", deaths)
 	r.Set("hangs", hangs)
 	r.Set("step_outcomes", outcomes)
+	if len(busy) > 0 {
+		ks := sortedKeys(busy)
+		if len(ks) > 40 {
+			ks = ks[:40]
+		}
+		m := map[string]string{}
+		for _, k := range ks {
+			m[k] = busy[k]
+		}
+		r.Set("busy_histories_first_40", m)
+	}
 	r.Set("worker_processes_started", p.Started)
 	r.Rule(fmt.Sprintf("histories over %d operations = %d request variants (every registered request type: filled registry instance, raw registry instance, per-service small-domain variants) x token modes %v, steps on one of two client connections (first step on connection 0); all histories of length 1, then length 2 (thorough: 3) built only from operations that survive alone, simplest first until the time budget; evaluations = histories executed on a real server; non-trivial = every history (each is a distinct request sequence); distinct = the history", len(ops), len(variants), toks))
 	r.Assume("a history that kills the server alone is reported once and not extended (its extensions would die the same way)", "every connection starts with an activated session owning one subscription (1 h interval) and one monitored item, so own/foreign ids exist from the first step", "the server is reused between histories after deleting all subscriptions and items and re-creating the two nodes histories can tamper with; it is replaced every 1500 histories and after every death or hang")
